@@ -61,6 +61,8 @@ def run_session(cfg, ctx, nreq, fp=True):
     if fp:
         ctx.fp = lambda: fingerprint(loop, (p,))
     out = []
+    if cfg.get('chained'):
+        return _run_chained(cfg, ctx, nreq, loop, kern, peer, p)
     for i in range(nreq):
         if i:
             gap = ctx.choose(f'gap{i}', GAPS)
@@ -90,6 +92,51 @@ def run_session(cfg, ctx, nreq, fp=True):
         out.append(o)
         if res[0] == 'hang':
             break
+    ctx.fp = None
+    return out
+
+
+def _run_chained(cfg, ctx, nreq, loop, kern, peer, p):
+    """The requests of the session are awaited one after the other inside ONE coroutine - as read_device_info() and
+    read_runtime_data() issue their requests: the next request starts in the same loop iteration in which the previous
+    one completed, callbacks the previous one scheduled with call_soon have not run yet."""
+    import asyncio
+    T = cfg['T']
+    marks = []
+
+    async def chain():
+        for i in range(nreq):
+            if i:
+                gap = ctx.choose(f'gap{i}', GAPS)
+                if gap:
+                    await asyncio.sleep(gap * T)
+            cmd = p.read_command(0x891C + 16 * i, 3)
+            clean = not [x for x in kern.q if not callable(x[3])] and all(not sk.rx for sk in kern.socks.values())
+            m = dict(t0=loop.time(), l0=len(kern.log), s0=len(peer.sent), clean=clean)
+            marks.append(m)
+            peer.max_open = 0
+            kern.ntx = 0
+            m['res'] = await _exec(cmd, p)
+            m['t1'] = loop.time()
+            m['l1'], m['s1'] = len(kern.log), len(peer.sent)
+            m['max_open'] = peer.max_open
+    st, why = loop.run(chain())
+    loop.settle(0)
+    out = []
+    for i, m in enumerate(marks):
+        if 'res' not in m:
+            m['res'], m['t1'], m['l1'], m['s1'], m['max_open'] = ('hang', why), loop.time(), len(kern.log), len(peer.sent), peer.max_open
+        log = kern.log[m['l0']:m['l1']]
+        sent = peer.sent[m['s0']:m['s1']]
+        last = i == len(marks) - 1
+        out.append(Obs(result=m['res'], t0=m['t0'], t1=m['t1'], txs=[(t, fd, d) for (t, fd, d, _) in sent],
+                       letters=[x for (_, _, _, x) in sent], valid_for=peer.valid_for[m['s0']:m['s1']],
+                       events=[e for e in log if e[0] in ('tx', 'rx', 'connect', 'connected')],
+                       rx=[e for e in log if e[0] == 'rx' and m['t0'] - TOL <= e[2] <= m['t1'] + TOL],
+                       clean_start=m['clean'], max_open=m['max_open'],
+                       # between chained requests the post-request close has not run yet: only the end state is judged
+                       open_after=(sum(1 for t in kern.transports if not t.is_closing()) if last else (0 if not cfg['ka'] else 1)),
+                       unhandled=[c.get('message', '') for c in loop.unhandled]))
     ctx.fp = None
     return out
 
@@ -170,6 +217,15 @@ def monitors(cfg, obs_list):
             if len(o.rx) == pieces and o.clean_start:
                 if not (res[0] == 'ok' and res[1] == o.valid_for[0] and n == 1):
                     out.append(('C07' if pieces == 2 else 'C04', 'own-answer-in-time-succeeds', f'{res[0]} with {n} transmissions', i))
+        # the FIRST transmission is answered in time (conforming frame / exception frame) and nothing else was in flight
+        # when the request started: there is no reason for a second transmission, whatever came before on this object
+        if o.letters and o.clean_start and len(o.letters) > 1:
+            if o.letters[0] in ('valid', 'valid@.5T', 'valid@.6T'):
+                out.append(('C02', 'first-transmission-answered:no-retransmission',
+                            f'{n} transmissions although #1 was answered by a conforming frame; outcome {res[:2]}', i))
+            elif _delay_of(o.letters[0], T) is not None and _delay_of(o.letters[0], T) < T - TOL:
+                out.append(('C08', 'first-transmission-refused:no-retransmission',
+                            f'{n} transmissions although #1 was answered by an exception frame; outcome {res[:2]}', i))
         # failures are InverterErrors, callbacks stay clean
         if res[0] == 'exc' and 'InverterError' not in res[3]:
             out.append(('C09', 'only-InverterError', res[1], i))
@@ -212,6 +268,7 @@ def _job(j):
         before = sorted({x for sc in scripts[:i] for x in sc if x != 'valid'})
         own = sorted({x for x in (scripts[i] if i < len(scripts) else []) if x != 'valid'})
         key = f"session:{clause}/{cfg['transport']}/ka={int(cfg['ka'])}" + ('/neighbour' if cfg.get('neighbour') else '') + \
+              ('/chained' if cfg.get('chained') else '') + \
               f"/{'+'.join(own) or 'valid'}" + \
               (f"/after:{'+'.join(before) or 'valid'}" if i else '')
         if not again:
@@ -242,6 +299,8 @@ def explore_sessions(tier, seed, props, light=False):
                     jobs.append((cfg, 3, 2, props))
                 if R == 1:
                     jobs.append((dict(cfg, neighbour=True), 2, 2, props))
+                    jobs.append((dict(cfg, chained=True), 2 if tier != 'thorough' else 3, 2 if tier != 'thorough' else 3, props))
+                    jobs.append((dict(cfg, chained=True, R=0), 2, 2, props))
     if tier != 'thorough' and not light:
         # one level deeper for two requests (a fourth-round finding needed it): 3 deviations
         for tr in ('udp', 'tcp'):
